@@ -85,6 +85,22 @@ def run_stats(case):
         top, members = pair
         if rng.random() < 0.5:
             top.define_experiment("env", "alg", {"a": 1})
+        # continued use: members of a list may have been used on their own
+        # before (different episode / step counters); what the list forwards is
+        # then recorded under each member's own current counters
+        ep_off = [0] * len(members)
+        st_off = [0] * len(members)
+        pre = {}  # member index -> records made before the list was used
+        if len(members) > 1 and case["seed"] % 2:
+            for j, m in enumerate(members):
+                for _ in range(int(rng.integers(0, 4)) if j else 0):
+                    m.start_new_episode()
+                    ep_off[j] += 1
+                    stp = int(rng.integers(1, 9))
+                    m.stop_episode(stp)
+                    st_off[j] += stp
+                    pre.setdefault(j, []).append((stp, ep_off[j], st_off[j]))
+            res.see("lists_with_member_history")
         ref = {}  # key -> list of (value, episode, step)
         n_ep = 0
         n_steps = 0
@@ -101,7 +117,8 @@ def run_stats(case):
                 st = int(rng.integers(0, 30))
                 ok, _ = guarded(res, "C20/raises/stop_episode", top.stop_episode, st)
                 n_steps += st
-                ref.setdefault("episode_length", []).append((st, n_ep, n_steps))
+                ref.setdefault("episode_length", []).append(
+                    (st, n_ep, n_steps, True, True))
             else:
                 key = str(rng.choice(keys[:3] if rng.random() < 0.9 else keys))
                 uid += 1
@@ -122,26 +139,33 @@ def run_stats(case):
                     kw["t"] = 1.25
                 ok, _ = guarded(res, "C20/raises/record_stat", top.record_stat,
                                 key, val, **kw)
-                ref.setdefault(key, []).append((val, ep, stp))
+                ref.setdefault(key, []).append(
+                    (val, ep, stp, "episode" not in kw, "step" not in kw))
             if not ok:
                 return res
             # counters advance exactly with the calls
-            for m in members:
-                if m.n_episodes != n_ep or m.n_steps != n_steps:
+            for j, m in enumerate(members):
+                if m.n_episodes != n_ep + ep_off[j] or m.n_steps != n_steps + st_off[j]:
                     res.violation("C20/counters", f"{type(m).__name__}: "
                                   f"n_episodes={m.n_episodes}, n_steps={m.n_steps}; "
-                                  f"calls imply {n_ep}, {n_steps}")
+                                  f"calls imply {n_ep + ep_off[j]}, "
+                                  f"{n_steps + st_off[j]}")
                     return res
-            if top.n_episodes != n_ep:
+            if top.n_episodes != n_ep + ep_off[0]:
                 res.violation("C20/counters", f"top-level n_episodes "
-                              f"{top.n_episodes} != {n_ep}")
+                              f"{top.n_episodes} != {n_ep + ep_off[0]}")
                 return res
             res.see("counter_checks")
         # retrieval
         got_all = []
-        for m in members:
+        for j, m in enumerate(members):
             got = {}
-            for key, recs in ref.items():
+            for key, recs0 in ref.items():
+                # implicit locations are the member's own counters
+                recs = [(v, e + (ep_off[j] if ie else 0), s_ + (st_off[j] if is_ else 0))
+                        for v, e, s_, ie, is_ in recs0]
+                if key == "episode_length":
+                    recs = pre.get(j, []) + recs
                 ok, xy_e = guarded(res, "C20/raises/get_stat", m.get_stat, key,
                                    "episode")
                 ok2, xy_s = guarded(res, "C20/raises/get_stat", m.get_stat, key,
@@ -171,7 +195,7 @@ def run_stats(case):
             if extra:
                 res.violation("C20/extra_records", f"unexpected keys {extra}")
             got_all.append(got)
-        if len(members) > 1:
+        if len(members) > 1 and not any(ep_off) and not any(st_off):
             for g in got_all[1:]:
                 if g != got_all[0]:
                     res.violation("C20/list_members_differ",
